@@ -128,9 +128,17 @@ def tempoTagsV2 (plugins : Out) (start end_ : Parsed Int) (svcV1 svcV2 marshal :
   runSteps true [(.err5xx, plugins), (.err4xx, start.out), (.err4xx, end_.out),
     (.err5xx, if startSec = 0 then svcV1 else svcV2), (.err5xx, marshal)]
 
-/-- `parseTraceSearchParams`: minDuration, maxDuration (`time.ParseDuration`), limit, start, end (`strconv.Atoi`) -/
+/-- `isUnixSecond` (after C13's `fix: /api/search refuses a start / end that is negative or whose nanoseconds leave int64`): a parsed
+    second must lie in `0 … math.MaxInt64 / 10⁹` -/
+def unixSecond (p : Parsed Int) : Out :=
+  match p with
+  | .ok v => if v < 0 ∨ v > 9223372036 then .err else .ok
+  | _ => .ok
+
+/-- `parseTraceSearchParams`: minDuration, maxDuration (`time.ParseDuration`), limit, start, end (`strconv.Atoi`, then the range
+    check of `isUnixSecond`) -/
 def searchParams (minDur maxDur limit start end_ : Parsed Int) : Out :=
-  allOut [minDur.out, maxDur.out, limit.out, start.out, end_.out]
+  allOut [minDur.out, maxDur.out, limit.out, start.out, unixSecond start, end_.out, unixSecond end_]
 
 /-- `Search`: plugins 500 · parameters 400 · `q` given: `SearchTraceQL` 500, otherwise `Search` 500 · stream -/
 def tempoSearch (plugins : Out) (minDur maxDur limit start end_ : Parsed Int) (hasQ : Bool) (svcQL svcTags : Out) : Resp :=
